@@ -45,7 +45,7 @@ def main():
         na = [{"property_id": e["property_id"], "reason": reasons.get(e["property_id"], e["reason"])} for e in na]
     man = {
         "version": 1,
-        "setup_cmd": "/venv/bin/python -m harness.gen_tables && cd lean && lake build",
+        "setup_cmd": "/venv/bin/python -m harness.build_all",
         "hooks": {
             "guard": "MOFUN_VERIF",
             "enable": "MOFUN_VERIF=1 in the environment (set by ./check); the harness installs mofun.mofun._verif_sink",
